@@ -48,7 +48,20 @@ fn run(case: &mut Case) -> Result<(), String> {
     let y: Vec<Rat> = (0..rows).map(|i| gen::rat(&mut case.src) - Rat::int(i as i64 % 2)).collect();
     let n = model.len();
     let p = case.src.permutation(n);
-    let mut sp = if case.src.below(4) == 0 { build_from_vecs(&model, rows, cols, case.src.coin()) } else { build_from_triplets(&model, rows, cols, &p) };
+    let mut sp = match case.src.below(5) {
+        0 => build_from_vecs(&model, rows, cols, case.src.coin()),
+        1 => {
+            // every entry inserted into an empty matrix, in the order of the permutation
+            let ents: Vec<((usize, usize), Rat)> = model.iter().map(|(k, v)| (*k, *v)).collect();
+            let mut m: ohsl::Sparse<Rat> = ohsl::Sparse::from_triplets(rows, cols, &mut Vec::new());
+            for &k in &p {
+                m.insert(ents[k].0 .0, ents[k].0 .1, ents[k].1);
+            }
+            case.class("built by inserts");
+            m
+        }
+        _ => build_from_triplets(&model, rows, cols, &p),
+    };
     let distinct = |v: &[Rat]| v.iter().any(|a| *a != v[0]);
     case.class(if rows == cols { "square" } else if rows < cols { "wide" } else { "tall" });
     if rows == 0 || cols == 0 {
@@ -133,14 +146,169 @@ fn run(case: &mut Case) -> Result<(), String> {
     Ok(())
 }
 
+// ------------------------------------------------------------------ machine number types (f64, i64) on integer data
+trait Mach: Copy + ohsl::Number + std::fmt::Debug + PartialEq + 'static {
+    const NAME: &'static str;
+    fn from_i(v: i64) -> Self;
+}
+impl Mach for f64 {
+    const NAME: &'static str = "f64";
+    fn from_i(v: i64) -> Self {
+        v as f64
+    }
+}
+impl Mach for i64 {
+    const NAME: &'static str = "i64";
+    fn from_i(v: i64) -> Self {
+        v
+    }
+}
+
+/// The same identities for `Sparse<f64>` and `Sparse<i64>` on small integer data (every product and sum exact, so the
+/// i64 model is the exact oracle): other instantiations than the rational one may take other code paths.  The matrix is
+/// built from shuffled triplets, from raw arrays, entirely by `insert` into an empty matrix, or half and half.
+fn run_machine<T: Mach>(case: &mut Case) -> Result<(), String> {
+    let rows = case.src.usize_below(13);
+    let cols = case.src.usize_below(13);
+    let mut model: std::collections::BTreeMap<(usize, usize), i64> = Default::default();
+    if rows > 0 && cols > 0 {
+        let dens = 1 + case.src.below(5);
+        for r in 0..rows {
+            for c in 0..cols {
+                if case.src.below(5) < dens {
+                    model.insert((r, c), if case.src.below(12) == 0 { 0 } else { case.src.small_int(9) });
+                }
+            }
+        }
+    }
+    let x: Vec<i64> = (0..cols).map(|j| case.src.small_int(9) + j as i64 % 3).collect();
+    let y: Vec<i64> = (0..rows).map(|i| case.src.small_int(9) - i as i64 % 2).collect();
+    let entries: Vec<((usize, usize), i64)> = model.iter().map(|(k, v)| (*k, *v)).collect();
+    let n = entries.len();
+    let perm = case.src.permutation(n);
+    let mode = case.src.below(4);
+    let trip = |idx: &[usize]| -> Vec<(usize, usize, T)> { idx.iter().map(|&k| (entries[k].0 .0, entries[k].0 .1, T::from_i(entries[k].1))).collect() };
+    let mut sp: ohsl::Sparse<T> = match mode {
+        0 => ohsl::Sparse::from_triplets(rows, cols, &mut trip(&perm)),
+        1 => {
+            let (mut val, mut ri, mut cs) = (Vec::new(), Vec::new(), vec![0usize; cols + 1]);
+            for c in 0..cols {
+                for ((r, cc), v) in &entries {
+                    if *cc == c {
+                        ri.push(*r);
+                        val.push(T::from_i(*v));
+                    }
+                }
+                cs[c + 1] = val.len();
+            }
+            ohsl::Sparse::from_vecs(rows, cols, val, ri, cs)
+        }
+        _ => {
+            // mode 2: every entry inserted into an empty matrix; mode 3: the first half from triplets, the rest inserted
+            let k = if mode == 2 { 0 } else { n / 2 };
+            let mut m = ohsl::Sparse::from_triplets(rows, cols, &mut trip(&perm[..k]));
+            for &e in &perm[k..] {
+                m.insert(entries[e].0 .0, entries[e].0 .1, T::from_i(entries[e].1));
+            }
+            m
+        }
+    };
+    let maxcol = (0..cols).map(|c| entries.iter().filter(|e| e.0 .1 == c).count()).max().unwrap_or(0);
+    case.class(format!("{} built by {}", T::NAME, ["from_triplets", "from_vecs", "inserts only", "triplets then inserts"][mode as usize]));
+    case.class(format!("{} fullest column holds {}", T::NAME, if maxcol >= 9 { ">= 9 entries" } else if maxcol >= 5 { "5..8 entries" } else { "<= 4 entries" }));
+    if rows != cols && n >= 2 && maxcol >= 5 {
+        case.mark_nontrivial();
+    }
+    case.describe(|| format!("{} {}x{} mode={} entries={:?} order={:?} x={:?} y={:?}", T::NAME, rows, cols, mode, entries, perm, x, y));
+    let tv = |v: &[i64]| -> Vector<T> { Vector::create(v.iter().map(|a| T::from_i(*a)).collect()) };
+    let same = |got: &Vector<T>, exp: &[i64]| -> bool { got.vec.len() == exp.len() && got.vec.iter().zip(exp).all(|(g, e)| *g == T::from_i(*e)) };
+    let (xv, yv) = (tv(&x), tv(&y));
+    let mut ax = vec![0i64; rows];
+    let mut aty = vec![0i64; cols];
+    for ((r, c), v) in &entries {
+        ax[*r] += v * x[*c];
+        aty[*c] += v * y[*r];
+    }
+    if sp.nonzero != n || sp.val.len() != n || sp.row_index.len() != n || sp.col_start.len() != cols + 1 || sp.col_start[cols] != n {
+        return Err(format!("entry counts: nonzero = {}, val {}, row_index {}, col_start {:?}; {} entries were stored", sp.nonzero, sp.val.len(), sp.row_index.len(), sp.col_start, n));
+    }
+    for ((r, c), v) in &entries {
+        if sp.get(*r, *c) != Some(T::from_i(*v)) {
+            return Err(format!("get({},{}) = {:?}, stored {}", r, c, sp.get(*r, *c), v));
+        }
+    }
+    // the other views of this instantiation (C06 checks them in depth over rationals)
+    {
+        let d = sp.to_dense();
+        if d.rows() != rows || d.cols() != cols {
+            return Err(format!("to_dense() has shape {}x{}", d.rows(), d.cols()));
+        }
+        for r in 0..rows {
+            for c in 0..cols {
+                let e = T::from_i(model.get(&(r, c)).copied().unwrap_or(0));
+                if d[(r, c)] != e {
+                    return Err(format!("to_dense()[({},{})] = {:?}, expected {:?}", r, c, d[(r, c)], e));
+                }
+            }
+        }
+        let mut tr: Vec<(usize, usize, T)> = sp.to_triplets();
+        tr.sort_by(|a, b| (a.1, a.0).cmp(&(b.1, b.0)));
+        let mut ex: Vec<(usize, usize, T)> = entries.iter().map(|((r, c), v)| (*r, *c, T::from_i(*v))).collect();
+        ex.sort_by(|a, b| (a.1, a.0).cmp(&(b.1, b.0)));
+        if tr != ex {
+            return Err(format!("to_triplets() = {:?}, stored {:?}", tr, ex));
+        }
+        let ci = sp.col_index();
+        if ci.vec.len() != n || sp.col_start_from_index(&ci) != sp.col_start {
+            return Err(format!("col_index() = {:?} does not compress back to col_start = {:?}", ci.vec, sp.col_start));
+        }
+    }
+    if !same(&sp.multiply(&xv), &ax) {
+        return Err(format!("multiply = {:?}, dense A x = {:?}", sp.multiply(&xv).vec, ax));
+    }
+    if !same(&sp.transpose_multiply(&yv), &aty) {
+        return Err(format!("transpose_multiply = {:?}, dense A^T y = {:?}", sp.transpose_multiply(&yv).vec, aty));
+    }
+    let t = match crate::engine::catch(|| sp.transpose()) {
+        Ok(t) => t,
+        Err(e) => return Err(format!("transpose() panicked: {}", e)),
+    };
+    if t.rows != cols || t.cols != rows || t.nonzero != n {
+        return Err(format!("transpose has shape {}x{} and {} entries", t.rows, t.cols, t.nonzero));
+    }
+    if !same(&t.multiply(&yv), &aty) || !same(&t.transpose_multiply(&xv), &ax) {
+        return Err(format!("transpose(): multiply = {:?} (expected {:?}), transpose_multiply = {:?} (expected {:?})", t.multiply(&yv).vec, aty, t.transpose_multiply(&xv).vec, ax));
+    }
+    let lhs: i64 = y.iter().zip(&ax).map(|(a, b)| a * b).sum();
+    if yv.dot(&sp.multiply(&xv)) != T::from_i(lhs) || sp.transpose_multiply(&yv).dot(&xv) != T::from_i(lhs) {
+        return Err(format!("<y, A x> = {:?}, <A^T y, x> = {:?}, exact {}", yv.dot(&sp.multiply(&xv)), sp.transpose_multiply(&yv).dot(&xv), lhs));
+    }
+    let s = case.src.small_int(7);
+    sp.scale(&T::from_i(s));
+    let sc = |v: &[i64]| -> Vec<i64> { v.iter().map(|a| a * s).collect() };
+    if !same(&sp.multiply(&xv), &sc(&ax)) || !same(&sp.transpose_multiply(&yv), &sc(&aty)) {
+        return Err(format!("after scale({}): multiply = {:?} (expected {:?}), transpose_multiply = {:?} (expected {:?})", s, sp.multiply(&xv).vec, sc(&ax), sp.transpose_multiply(&yv).vec, sc(&aty)));
+    }
+    let mut tt = t;
+    tt.scale(&T::from_i(s));
+    if !same(&tt.multiply(&yv), &sc(&aty)) || !same(&tt.transpose().multiply(&xv), &sc(&ax)) {
+        return Err(format!("transpose() then scale({}): products differ from {} times the products before", s, s));
+    }
+    if !same(&sp.transpose().multiply(&yv), &sc(&aty)) {
+        return Err(format!("scale({}) then transpose(): multiply = {:?}, expected {:?}", s, sp.transpose().multiply(&yv).vec, sc(&aty)));
+    }
+    Ok(())
+}
+
 impl Prop for C07 {
     fn id(&self) -> &'static str {
         "C07"
     }
     fn rule(&self) -> String {
-        "random shapes 0..=10 x 0..=10, duplicate-free patterns of density 0..1 with forced empty rows/columns (probability 1/3 each), built from triplets in a random order (3/4) or raw CSC arrays (1/4); \
+        "half of the cases over exact rationals: random shapes 0..=10 x 0..=10, duplicate-free patterns of density 0..1 with forced empty rows/columns (probability 1/3 each), built from triplets in a random order (3/5), raw CSC arrays (1/5) or by inserting every entry into an empty matrix (1/5); \
          small rational values; non-constant rational vectors. multiply vs dense A x, transpose_multiply vs dense A^T y, transpose().multiply == transpose_multiply, \
          transpose().transpose_multiply == multiply, <y,Ax> == <A^T y,x>, and all products after scale(s) equal s times the products before, in both orders (scale then transpose, transpose then scale, and transposed back); all exact. \
+         The other half runs the same identities for Sparse<f64> and Sparse<i64> on small integer data (shapes up to 12 x 12, columns with up to 12 entries; built from triplets, raw arrays, inserts only, or triplets then inserts) against an i64 model, entry counts and get() included. \
          Non-trivial: rows != cols, >= 2 entries, vector with >= 2 distinct components. distinct = distinct decoded choice sequence."
             .into()
     }
@@ -154,7 +322,12 @@ impl Prop for C07 {
         tier.pick(150_000, 3_000_000)
     }
     fn run(&self, case: &mut Case) -> Outcome {
-        match run(case) {
+        let r = match case.src.below(4) {
+            0 | 1 => run(case),
+            2 => run_machine::<f64>(case),
+            _ => run_machine::<i64>(case),
+        };
+        match r {
             Ok(()) => Outcome::Pass,
             Err(m) => Outcome::Fail(m),
         }
